@@ -562,6 +562,13 @@ def regenerate():
         node_files.update(gen_emit.generate_all(trees["core"]))
     except (SyntaxError, OSError, KeyError) as e:
         node_files.update({stem: (None, str(e)) for stem in gen_emit.ORDER})
+    # the reduction classes of streamz/dataframe/aggregations.py (harness/gen_aggs.py)
+    import gen_aggs
+    try:
+        aggs = ast.parse(open(os.path.join(REPO, "streamz", "dataframe", "aggregations.py")).read())
+        node_files.update(gen_aggs.generate_all(aggs))
+    except (SyntaxError, OSError) as e:
+        node_files.update({stem: (None, str(e)) for stem in gen_aggs.ORDER})
     for name, (text, err) in node_files.items():
         if err is not None:
             text = "(* kernel no longer translatable: %s *)\nDefinition kernel_not_translatable : False := I.\n" % err.replace("*)", "* )").replace("(*", "( *")
@@ -581,7 +588,8 @@ if __name__ == "__main__":
     e = regenerate()
     import gen_nodes
     import gen_emit
-    for name in [k[0] for k in KERNELS] + ["KN_" + c for c in gen_nodes.ORDER] + gen_emit.ORDER:
+    import gen_aggs
+    for name in [k[0] for k in KERNELS] + ["KN_" + c for c in gen_nodes.ORDER] + gen_emit.ORDER + gen_aggs.ORDER:
         if len(sys.argv) > 1 and name not in sys.argv[1:]:
             continue
         print(open(os.path.join(VERIF, "coq", "theories", "Gen", name + ".v")).read())
